@@ -24,6 +24,10 @@
     map_mut <k>                              x ↦ x + k
     map_mut_with_index <k>                   x at (i, j) ↦ x + k·(i+1) + j
     map <k> | map_with_index <k>             the allocating forms (the result replaces the matrix)
+    … panic_at=<j>                           on map_mut / map_mut_with_index / map / map_with_index:
+                                             the closure panics on its j-th call (0-based); on
+                                             insert_row_with / insert_column_with: the iterator's
+                                             `next` panics on its j-th call
     scalar                                   → val=<v> | panic         (read-only, &self)
     try_into_scalar                          → ok(<v>) | err           (on a clone)
     try <op …>                               the operation on a clone; the matrix itself is kept
@@ -146,6 +150,28 @@ def parseOp (toks : List String) : Option (Matrix.Op Nat) :=
     k.toNat?.map fun k => .mapWithIndex fun x i j => x + k * (i + 1) + j
   | _ => none
 
+/-- operations including the `panic_at=` variants (user code panicking on its j-th call) -/
+def parseXOp (toks : List String) : Option (Matrix.XOp Nat) :=
+  match (optArg "panic_at" toks).bind (·.toNat?) with
+  | none => (parseOp toks).map .op
+  | some j =>
+    match toks with
+    | "map_mut" :: k :: _ => k.toNat?.map fun k => .mapMutPanic (· + k) j
+    | "map_mut_with_index" :: k :: _ =>
+      k.toNat?.map fun k => .mapMutWithIndexPanic (fun x i j' => x + k * (i + 1) + j') j
+    | "map" :: k :: _ => k.toNat?.map fun k => .mapPanic (· + k) j
+    | "map_with_index" :: k :: _ =>
+      k.toNat?.map fun k => .mapWithIndexPanic (fun x i j' => x + k * (i + 1) + j') j
+    | "insert_row_with" :: p :: vs :: _ =>
+      match p.toNat?, parseNatList vs with
+      | some p, some vs => some (.insertRowWithPanic p vs j)
+      | _, _ => none
+    | "insert_column_with" :: p :: vs :: _ =>
+      match p.toNat?, parseNatList vs with
+      | some p, some vs => some (.insertColumnWithPanic p vs j)
+      | _, _ => none
+    | _ => none
+
 /-! printing -/
 
 def showRow (r : List Nat) : String := showNats r
@@ -248,18 +274,18 @@ def step (s : State) (toks : List String) : State × String :=
         | .panic k => s!"panic ## kind={k}"
       (s, if model = spec then model else s!"{spec} ## MODEL-SPEC-DISAGREE {model}")
   | "try" :: rest =>
-    match s, parseOp rest with
+    match s, parseXOp rest with
     | none, some _ => (s, "no-matrix")
-    | some st, some op =>
-      (s, answer (!Rows.pre st.rs op) (Rows.next st.rs op) (Matrix.exec st.m op))
+    | some st, some x =>
+      (s, answer (Rows.xpanics st.rs x) (Rows.xnext st.rs x) (Matrix.xexec st.m x))
     | _, none => (s, "bad-op")
   | _ =>
-    match s, parseOp toks with
+    match s, parseXOp toks with
     | none, some _ => (s, "no-matrix")
-    | some st, some op =>
-      let res := Matrix.exec st.m op
-      let rs' := Rows.next st.rs op
-      (some ⟨res.state, rs'⟩, answer (!Rows.pre st.rs op) rs' res)
+    | some st, some x =>
+      let res := Matrix.xexec st.m x
+      let rs' := Rows.xnext st.rs x
+      (some ⟨res.state, rs'⟩, answer (Rows.xpanics st.rs x) rs' res)
     | _, none => (s, "bad-op")
 
 end Driver.C11
